@@ -462,7 +462,7 @@ def r7_minimal_columns(repo, report):
 
 _OUTPUT_OPTIONS = ("output", "paired_output", "untrimmed_output", "untrimmed_paired_output", "too_short_output", "too_short_paired_output",
                    "too_long_output", "too_long_paired_output", "rest_file", "info_file", "wildcard_file")
-_NORMALISERS = ("os.path.realpath", "os.path.abspath", "os.path.normpath", "realpath", "abspath")
+_NORMALISERS = ("os.path.realpath", "realpath")  # abspath/normpath do not see through symbolic links (and normpath not even through a relative spelling)
 
 
 def r8_duplicate_paths(repo, report):
@@ -493,7 +493,7 @@ def r8_duplicate_paths(repo, report):
         e = expand(fn, e)
         if isinstance(e, ast.Call) and chain(e.func) in _NORMALISERS and e.args and chain(e.args[0]) == v:
             return True
-        if isinstance(e, ast.Call) and isinstance(e.func, ast.Attribute) and e.func.attr in ("resolve", "absolute") and v in src(e.func.value):
+        if isinstance(e, ast.Call) and isinstance(e.func, ast.Attribute) and e.func.attr == "resolve" and v in src(e.func.value):
             return True
         return False
 
@@ -503,5 +503,5 @@ def r8_duplicate_paths(repo, report):
     raises = any(isinstance(par, ast.If) and any(isinstance(r_, ast.Raise) for r_ in par.body) for t in t_ok for par in [getattr(t, "_parent", None)])
     ok = len(t_ok) == 1 and len(a_ok) == 1 and normalised(t_ok[0].left) and normalised(a_ok[0].args[0]) and raises
     report.ob("C04.R8", "complain_about_duplicate_paths compares normalised paths", ok, facts=facts, loc=repo.loc(fn),
-              expected="if norm(path) in seen: raise ...; seen.add(norm(path)) with norm = os.path.realpath / abspath",
-              why="" if ok else "paths are compared as the strings the user typed: 'out.fq' and './out.fq' name one file but pass the check, the file is opened twice and records of one writer overwrite the other's")
+              expected="if norm(path) in seen: raise ...; seen.add(norm(path)) with norm = os.path.realpath (or Path.resolve): the form in which two names of one file are equal",
+              why="" if ok else "paths are not compared in resolved form: 'out.fq' and \"$PWD/out.fq\" (or the same file through a symbolic link) name one file but pass the check, the file is opened twice and records of one writer overwrite the other's")
